@@ -182,6 +182,9 @@ pub fn byte_patterns() -> Vec<Pat> {
         b"[\xc0-\xdf][\x80-\xbf]",
         b"\x00+",
         b"(?s:.)",
+        b"\xc3\xa9\xff",
+        b"(\xf0\x9f){2}",
+        b"\xe2\x82\xac",
         b"\x80+",
         b"a\x80",
         b"\x7f\x80\x81",
